@@ -87,7 +87,26 @@ class Host:
 
         self.make, self.variant = make, variant
         self.m = make()
-        self.box = CompositeTransform([self.m]) if variant == "parent" else None
+        self.box = self._wrap(self.m)
+
+    def _wrap(self, m):
+        """parent: an enclosing CompositeTransform; flow: the layer is the transform of a Flow, whose
+        transform_to_noise is the data -> noise pass."""
+        from nflows.distributions.normal import StandardNormal
+        from nflows.flows.base import Flow
+        from nflows.transforms.base import CompositeTransform
+
+        if self.variant == "parent":
+            return CompositeTransform([m])
+        if self.variant == "flow":
+            return Flow(m, StandardNormal([1]))
+        return None
+
+    def forward(self, x):
+        """(outputs, logabsdet or None)"""
+        if self.variant == "flow":
+            return self.box.transform_to_noise(x), None
+        return self.m.forward(x)
 
     def train(self):
         if self.variant == "direct":
@@ -113,7 +132,7 @@ class Host:
         self.m = self.make()
         if scramble:
             scramble(self.m)
-        self.box = CompositeTransform([self.m]) if self.variant == "parent" else None
+        self.box = self._wrap(self.m)
         (self.box if self.box is not None else self.m).load_state_dict(sd)
 
 
@@ -122,12 +141,12 @@ class Host:
         from nflows.transforms.base import CompositeTransform
 
         if self.box is not None:
-            self.box.load_state_dict({k: v.clone() for k, v in CompositeTransform([donor]).state_dict().items()})
+            self.box.load_state_dict({k: v.clone() for k, v in self._wrap(donor).state_dict().items()})
         else:
             self.m.load_state_dict({k: v.clone() for k, v in donor.state_dict().items()})
 
 
-VARIANTS = ["direct", "train_arg", "parent"]
+VARIANTS = ["direct", "train_arg", "parent", "flow"]
 
 
 def an_walk_task(task):
@@ -170,8 +189,8 @@ def an_walk_task(task):
                     # every second call is a gradient-free pass (a warm-up / calibration sweep): the life-cycle
                     # does not depend on whether autograd is recording
                     with (torch.no_grad() if steps % 2 == 0 else contextlib.nullcontext()):
-                        out, lad = m.forward(x.clone())
-                    out, lad = out.detach(), lad.detach()
+                        out, lad = host.forward(x.clone())
+                    out, lad = out.detach(), (lad.detach() if lad is not None else None)
                 elif name == "Inverse":
                     x = B[int(args[0])]
                     out, lad = m.inverse(x.clone())
@@ -213,7 +232,7 @@ def an_walk_task(task):
                     el = -hw * uls.sum() * torch.ones(x.shape[0], dtype=torch.float64)
                 if out.shape != eo.shape or not torch.allclose(out.double(), eo, atol=1e-4, rtol=1e-4):
                     fail("output", "%s output differs from scale*x+shift of the model parameters" % name)
-                if lad.shape != el.shape or not torch.allclose(lad.double(), el, atol=1e-4, rtol=1e-4):
+                if lad is not None and (lad.shape != el.shape or not torch.allclose(lad.double(), el, atol=1e-4, rtol=1e-4)):
                     fail("logabsdet", "%s logabsdet %s vs model %s" % (name, lad.tolist(), el.tolist()))
                 if name == "Forward" and res["didInit"]:
                     # self-checking clause of the property: zero mean, unit variance per feature/channel
@@ -280,8 +299,8 @@ def bn_walk_task(task):
                     m = host.m
                 elif name == "Forward":
                     with (torch.no_grad() if steps % 2 == 0 else contextlib.nullcontext()):
-                        out, lad = m.forward(B[int(args[0])].clone())
-                    out, lad = out.detach(), lad.detach()
+                        out, lad = host.forward(B[int(args[0])].clone())
+                    out, lad = out.detach(), (lad.detach() if lad is not None else None)
                 elif name == "Inverse":
                     out, lad = m.inverse(B[int(args[0])].clone())
                 elif name == "LoadDonor":
@@ -324,7 +343,7 @@ def bn_walk_task(task):
                 otol = 5e-3 if dtype == torch.float32 else 1e-8
                 if out.shape != eo.shape or not torch.allclose(out.double(), eo, atol=otol, rtol=otol):
                     fail("output", "%s output uses other statistics than the %s ones of the model (max diff %.3g)" % (name, res.get("stats", "running"), float((out.double() - eo).abs().max())))
-                if lad.shape != el.shape or not torch.allclose(lad.double(), el, atol=otol, rtol=otol):
+                if lad is not None and (lad.shape != el.shape or not torch.allclose(lad.double(), el, atol=otol, rtol=otol)):
                     fail("logabsdet", "%s logabsdet %s vs model %s" % (name, lad.tolist()[:2], el.tolist()[:2]))
             if len(fails) > nfail:
                 break
